@@ -20,6 +20,8 @@ for p in props:
         if os.path.isdir(src):
             os.makedirs(dst, exist_ok=True)
             for fn in ('patch.diff', 'demo.py', 'notes.md'):
+                if fn == 'patch.diff' and os.path.exists(os.path.join(dst, 'patch.orig.diff')):
+                    continue          # a rebased patch is in place
                 if os.path.exists(os.path.join(src, fn)):
                     shutil.copy(os.path.join(src, fn), os.path.join(dst, fn))
         if not os.path.isdir(dst):
@@ -42,6 +44,8 @@ for p in props:
         patch = os.path.join(dst, 'patch.diff')
         ok = subprocess.run(['git', '-C', '/repo', 'apply', '--check', patch]).returncode == 0
         meta['applies_to_repo_head'] = ok
+        if os.path.exists(os.path.join(dst, 'patch.orig.diff')):
+            meta['rebased'] = 'patch.diff is the sub-agent patch (patch.orig.diff) 3-way re-applied onto the current /repo HEAD after later fix commits touched the same file; tests and demo re-confirmed there (tools/rebase_seed.sh)'
         if ok and os.path.exists(os.path.join(V, 'harness', p + '.py')):
             subprocess.run(['git', '-C', '/repo', 'apply', patch], check=True)
             try:
